@@ -44,10 +44,14 @@ def stepOp (cls : Nat) (b : Builder) (op : String) : Option (Builder × String) 
         | _, _ => "noparse"
       some (b, s!"b={toHex bytes},len={b.byteLen},has={hasS},btid={MsgFam.hex24 b.tid},cls=1,p={parseShort bytes},v={val}")
     else if r == "wp" then do
-      let fill ← ofHex ty
+      let (fs, extra) ← match ty.splitOn "+" with
+        | [f] => some (f, 0)
+        | [f, e] => e.toNat?.map (f, ·)
+        | _ => none
+      let fill ← ofHex fs
       match fill with
       | [f] =>
-        match b.writeInto (List.replicate b.byteLen f) with
+        match b.writeInto (List.replicate (b.byteLen + extra) f) with
         | .error _ => some (b, "refused")
         | .ok (k, d) =>
           let bytes := d.take k
